@@ -18,9 +18,23 @@ Definition qrel2 (q : Q) : Q :=
        if (0 <=? s)%Z then Qmake (Z.shiftl n s / Zpos (Qden q)) (Pos.shiftl 1 (Z.to_N s))
        else Qmake (Z.shiftl (n / Z.shiftl (Zpos (Qden q)) (- s)) (- s)) 1.
 
+(* dyadic fast path (almost every intermediate is n / 2^k): rounding is a shift of the numerator *)
+Fixpoint pos_pow2 (p : positive) : bool :=
+  match p with xH => true | xO p' => pos_pow2 p' | xI _ => false end.
+Definition qrel3 (q : Q) : Q :=
+  let n := Qnum q in
+  if pos_pow2 (Qden q) then
+    let L := Z.log2 (Z.abs n) in
+    if (L <=? 220)%Z then q
+    else let t := (L - 220)%Z in
+         let k := Z.log2 (Zpos (Qden q)) in
+         let n' := Z.shiftr n t in
+         if (t <=? k)%Z then Qmake n' (Pos.shiftl 1 (Z.to_N (k - t))) else Qmake (Z.shiftl n' (t - k)) 1
+  else qrel2 q.
+
 Definition QROps (h mn : Q) : Fops :=
-  mkFops Q (fun a b => qrel2 (a + b)) (fun a b => qrel2 (a - b)) (fun a b => qrel2 (a * b)) (fun a b => qrel2 (a / b))
-         Qopp (fun z => z # 1) (fun a => qsqrt (qrel2 a)) qsin qcos qatan2 qasin qexp Qabs qpi
+  mkFops Q (fun a b => qrel3 (a + b)) (fun a b => qrel3 (a - b)) (fun a b => qrel3 (a * b)) (fun a b => qrel3 (a / b))
+         Qopp (fun z => z # 1) (fun a => qsqrt (qrel3 a)) qsin qcos qatan2 qasin qexp Qabs qpi
          qleb qltb qeqb qclose h mn qrint.
 
 Section R.
